@@ -113,6 +113,10 @@ theorem InvC.stopTask {s : TM} (hi : Inv s) (h : InvC s) (id : String) : InvC (s
       · exact h.bound k' id e hk'
     · rw [stopTask_sent]; exact h.good
 
+theorem InvC.startTaskFail {s : TM} (hi : Inv s) (h : InvC s) {d : TaskDef} (hn : s.tasks d.id = none) :
+    InvC (startTaskFail s d) := by
+  rw [startTaskFail_eq hn]; exact (h.startTask d).stopTask (hi.startTask hn) d.id
+
 theorem forkBatch_invC {db rp : String} (pts : List RawPoint) :
     ∀ s : TM, InvC s → InvC (pts.foldl (fun s r => forkPoint s (mkPoint db rp r)) s) := by
   induction pts with
@@ -148,6 +152,13 @@ theorem invC_fold (ops : List Op) :
         by_cases hid : id = d.id
         · simp [hid, upd]
         · simp [hid, upd, hrun id]
+    | startfail d =>
+      simp only [wfFrom, Bool.and_eq_true, Bool.not_eq_true', List.contains_eq_mem, decide_eq_false_iff_not] at hwf
+      have hn := not_running hrun hwf.1
+      refine ih _ run (hi.startTaskFail hn) (hc.startTaskFail hi hn) ?_ hwf.2
+      intro id
+      show id ∈ run ↔ ((startTaskFail s d).tasks id).isSome
+      rw [startTaskFail_tasks]; exact hrun id
     | stop id =>
       have hwf' : wfFrom (run.filter (· != id)) rest = true := by simpa [wfFrom] using hwf
       refine ih _ _ (hi.stopTask id) (hc.stopTask hi id) ?_ hwf'
